@@ -281,7 +281,7 @@ Proof.
   destruct (j_kind (join_of s gj)).
   - apply (mu_replace_top s a x below _ Ha Hst). rewrite wact_set_top. lia.
   - destruct (fut_state s gj).
-    + destruct (existsb (Nat.eqb (j_ftask (join_of s gj))) (cq s ++ steal s)) eqn:Ex.
+    + unfold untimed_wait_inline. cbn [andb]. destruct (existsb (Nat.eqb (j_ftask (join_of s gj))) (cq s ++ steal s)) eqn:Ex.
       * apply existsb_eqb_in in Ex. set (t := j_ftask (join_of s gj)) in *.
         pose proof (mu_filter_task s t Ex) as F.
         set (s1 := with_queues s (filter (neqb t) (cq s)) (filter (neqb t) (steal s))) in *.
